@@ -123,14 +123,14 @@ Definition para_is_ref (l : list inline) : bool :=
   end.
 
 (* to_graph_inlines: constructor for constructor (see Ast.v); the url of a note link loses
-   its `.md` suffix (the writer adds the configured extension back) *)
+   one `.md` suffix (document.rs:454-460 `strip_md`; the writer adds an extension back) *)
 Fixpoint to_ginline (i : inline) : inline :=
   match i with
   | Emph l => Emph (map to_ginline l)
   | Strong l => Strong (map to_ginline l)
   | Strike l => Strike (map to_ginline l)
   | Link url title lt l =>
-      Link (if is_ref_url url then trim_end_matches MD url else url) title lt (map to_ginline l)
+      Link (if is_ref_url url then strip_md url else url) title lt (map to_ginline l)
   | Image url title l => Image url title (map to_ginline l)
   | _ => i
   end.
